@@ -69,8 +69,8 @@ func c11line(t *simrt.Tape, tags []string) string {
 		switch t.Choose(6) {
 		case 0:
 			return n()
-		case 1: // around the top of number64 (an unsigned 63-bit integer)
-			return []string{"9223372036854775807", "9223372036854775808", "18446744073709551615"}[t.Choose(3)]
+		case 1, 2: // around the top of number64 (an unsigned 63-bit integer)
+			return []string{"9223372036854775807", "9223372036854775808", "18446744073709551615", "9223372036854775809"}[t.Choose(4)]
 		}
 		return fmt.Sprint(t.Choose(50))
 	}
@@ -458,7 +458,7 @@ func runC11(r *R) {
 	for _, k := range chosen {
 		sets := []string{"1", "1:3", "5,7", "4294967295", "*", "1:*", "3:*", "*:2", "7,9:*", "0", "$", "1:0", ""}
 		pick := t.Choose(4)
-		if (k == "copy" || k == "move") && pick > 1 {
+		if (k == "copy" || k == "move") && pick > 0 {
 			pick = 0
 		}
 		switch pick {
@@ -477,6 +477,7 @@ func runC11(r *R) {
 		}
 		lines = append(lines, string(g))
 	}
+	reauth := t.Choose(5) == 0
 	cfg := r.SchedConfig()
 	for _, l := range lines {
 		r.Tracef("hostile line: %q", clipStr(l, 400))
@@ -519,29 +520,32 @@ func runC11(r *R) {
 		simrt.GoTask("server", func() {
 			defer close(srvDone)
 			defer sc.Close()
-			srv.send("* OK [CAPABILITY IMAP4rev1 LITERAL- QUOTA METADATA SORT THREAD=REFERENCES MOVE UIDPLUS ESEARCH NAMESPACE ENABLE] hostile server ready")
+			srv.send("* OK [CAPABILITY IMAP4rev1 LITERAL- QUOTA METADATA SORT THREAD=REFERENCES MOVE UIDPLUS ESEARCH NAMESPACE ENABLE UNAUTHENTICATE] hostile server ready")
 			var tags []string
-			capLine := "IMAP4rev1 LITERAL- QUOTA METADATA SORT THREAD=REFERENCES MOVE UIDPLUS ESEARCH NAMESPACE ENABLE"
-			for i := 0; i < 2+len(chosen); i++ {
+			capLine := "IMAP4rev1 LITERAL- QUOTA METADATA SORT THREAD=REFERENCES MOVE UIDPLUS ESEARCH NAMESPACE ENABLE UNAUTHENTICATE"
+			selected := false
+			for i := 0; i < len(chosen); {
 				c, ok := srv.readCommand()
 				if !ok {
 					return
 				}
-				if c.Name == "CAPABILITY" && i < 2 {
-					srv.send("* CAPABILITY "+capLine, c.Tag+" OK done")
-					i--
-					continue
-				}
-				if i < 2 { // LOGIN, SELECT
-					if i == 1 {
+				if !selected { // the prelude: LOGIN [UNAUTHENTICATE LOGIN] SELECT, with CAPABILITY refreshes in between
+					switch c.Name {
+					case "CAPABILITY":
+						srv.send("* CAPABILITY "+capLine, c.Tag+" OK done")
+					case "SELECT":
 						srv.send("* 7 EXISTS", "* FLAGS (\\Seen)")
 						srv.send(c.Tag + " OK fine")
-					} else {
+						selected = true
+					case "UNAUTHENTICATE":
+						srv.send(c.Tag + " OK back to square one")
+					default:
 						srv.send(c.Tag + " OK [CAPABILITY " + capLine + "] fine")
 					}
 					continue
 				}
 				tags = append(tags, c.Tag)
+				i++
 			}
 			for _, l := range lines {
 				if srv.sendRaw([]byte(l+"\r\n")) != nil {
@@ -601,6 +605,12 @@ func runC11(r *R) {
 			defer close(callerDone)
 			if c.Login("u", "p").Wait() != nil {
 				return
+			}
+			if reauth {
+				// RFC 8437: back to the not authenticated state and in again; whatever had been enabled is off
+				if c.Unauthenticate().Wait() != nil || c.Login("u", "p").Wait() != nil {
+					return
+				}
 			}
 			if _, err := c.Select("INBOX", nil).Wait(); err != nil {
 				return
